@@ -10,14 +10,6 @@ def Seen (e : Ep) : Prop := e.hasCookie = true ∨ e.st = stCookieEchoed ∨ e.s
 def Derived (e : Ep) : Prop :=
   e.uil = (e.il && e.pil) ∧ e.uifwd = (e.il && e.pil && e.pifwd) ∧ e.ufwd = (!(e.il && e.pil) && e.pfwd)
 
-structure EpInv (e : Ep) (il zc : Bool) (id : Nat) (pil pzc : Bool) : Prop where
-  cfg : e.il = il ∧ e.zc = zc ∧ e.id = id
-  derived : Derived e
-  zero : e.sendZero = true → pzc = true
-  seen : Seen e → e.pil = pil ∧ e.pfwd = true ∧ e.pifwd = pil
-  unseen : ¬ Seen e → e.pil = false ∧ e.pfwd = false ∧ e.pifwd = false ∧ e.sendZero = false
-  states : e.st = stClosed ∨ e.st = stCookieWait ∨ e.st = stCookieEchoed ∨ e.st = stEstablished
-
 def MsgFrom (il zc : Bool) : Msg → Prop
   | .init t z => t = extTypes il ∧ z = zcParam zc
   | .initAck t z _ => t = extTypes il ∧ z = zcParam zc
@@ -25,6 +17,15 @@ def MsgFrom (il zc : Bool) : Msg → Prop
 
 def PktFrom (il zc pzc : Bool) (p : Pkt) : Prop :=
   MsgFrom il zc p.msg ∧ (p.zeroCk = true → pzc = true ∧ (match p.msg with | .init .. => False | .cookieEcho .. => False | _ => True))
+
+structure EpInv (e : Ep) (il zc : Bool) (id : Nat) (pil pzc : Bool) : Prop where
+  cfg : e.il = il ∧ e.zc = zc ∧ e.id = id
+  derived : Derived e
+  zero : e.sendZero = true → pzc = true
+  seen : Seen e → e.pil = pil ∧ e.pfwd = true ∧ e.pifwd = pil
+  unseen : ¬ Seen e → e.pil = false ∧ e.pfwd = false ∧ e.pifwd = false ∧ e.sendZero = false
+  states : e.st = stClosed ∨ e.st = stCookieWait ∨ e.st = stCookieEchoed ∨ e.st = stEstablished
+  queued : ∀ m ∈ e.queue, MsgFrom il zc m
 
 @[simp] theorem learn_il (pil : Bool) : hasType (extTypes pil) Gen.ctIData = pil := by cases pil <;> decide
 @[simp] theorem learn_fwd (pil : Bool) : hasType (extTypes pil) Gen.ctForwardTSN = true := by cases pil <;> decide
@@ -41,78 +42,77 @@ theorem mkPkt_from (e : Ep) (m : Msg) (il zc pzc : Bool) (hm : MsgFrom il zc m)
 theorem handleInit_inv (e : Ep) (il zc : Bool) (id : Nat) (pil pzc : Bool)
     (hI : EpInv e il zc id pil pzc) :
     EpInv (handleInit e (extTypes pil) (zcParam pzc)).1 il zc id pil pzc ∧
-    ∀ q ∈ (handleInit e (extTypes pil) (zcParam pzc)).2, PktFrom il zc pzc q := by
-  obtain ⟨⟨hil, hzc, hid⟩, hder, hzero, hseen, hunseen, hst⟩ := hI
+    ∀ q ∈ (handleInit e (extTypes pil) (zcParam pzc)).2, MsgFrom il zc q := by
+  obtain ⟨⟨hil, hzc, hid⟩, hder, hzero, hseen, hunseen, hst, hq⟩ := hI
   unfold handleInit
   split
-  · exact ⟨⟨⟨hil, hzc, hid⟩, hder, hzero, hseen, hunseen, hst⟩, by simp⟩
+  · exact ⟨⟨⟨hil, hzc, hid⟩, hder, hzero, hseen, hunseen, hst, hq⟩, by simp⟩
   · have hz' : (pzc || e.sendZero) = true → pzc = true := by
       cases pzc
       · intro h; exact hzero (by simpa using h)
       · intro _; rfl
-    refine ⟨⟨?_, ?_, ?_, ?_, ?_, ?_⟩, ?_⟩
+    refine ⟨⟨?_, ?_, ?_, ?_, ?_, ?_, ?_⟩, ?_⟩
     · simp [updateIl, learnPeer, hil, hzc, hid]
     · simp [Derived, updateIl, learnPeer]
     · simpa [updateIl, learnPeer] using hz'
     · intro _; simp [updateIl, learnPeer]
     · intro h; exfalso; apply h; left; simp [updateIl, learnPeer]
     · simpa [updateIl, learnPeer] using hst
-    · intro q hq
-      simp only [List.mem_singleton] at hq
-      subst hq
-      apply mkPkt_from
-      · simp [MsgFrom, updateIl, learnPeer, hil, hzc]
-      · simpa [updateIl, learnPeer] using hz'
+    · simpa [updateIl, learnPeer] using hq
+    · intro q hq'
+      simp only [List.mem_singleton] at hq'
+      subst hq'
+      simp [MsgFrom, updateIl, learnPeer, hil, hzc]
 
 theorem handleInitAck_inv (e : Ep) (il zc : Bool) (id : Nat) (pil pzc : Bool) (cookie : Nat)
     (hI : EpInv e il zc id pil pzc) :
     EpInv (handleInitAck e (extTypes pil) (zcParam pzc) cookie).1 il zc id pil pzc ∧
-    ∀ q ∈ (handleInitAck e (extTypes pil) (zcParam pzc) cookie).2, PktFrom il zc pzc q := by
-  obtain ⟨⟨hil, hzc, hid⟩, hder, hzero, hseen, hunseen, hst⟩ := hI
+    ∀ q ∈ (handleInitAck e (extTypes pil) (zcParam pzc) cookie).2, MsgFrom il zc q := by
+  obtain ⟨⟨hil, hzc, hid⟩, hder, hzero, hseen, hunseen, hst, hq⟩ := hI
   unfold handleInitAck
   split
-  · exact ⟨⟨⟨hil, hzc, hid⟩, hder, hzero, hseen, hunseen, hst⟩, by simp⟩
+  · exact ⟨⟨⟨hil, hzc, hid⟩, hder, hzero, hseen, hunseen, hst, hq⟩, by simp⟩
   · have hz' : (pzc || e.sendZero) = true → pzc = true := by
       cases pzc
       · intro h; exact hzero (by simpa using h)
       · intro _; rfl
-    refine ⟨⟨?_, ?_, ?_, ?_, ?_, ?_⟩, ?_⟩
+    refine ⟨⟨?_, ?_, ?_, ?_, ?_, ?_, ?_⟩, ?_⟩
     · simp [updateIl, learnPeer, hil, hzc, hid]
     · simp [Derived, updateIl, learnPeer]
     · simpa [updateIl, learnPeer] using hz'
     · intro _; simp [updateIl, learnPeer]
     · intro h; exfalso; apply h; right; left; rfl
     · right; right; left; rfl
-    · intro q hq
-      simp only [List.mem_singleton] at hq
-      subst hq
-      apply mkPkt_from
-      · simp [MsgFrom]
-      · simpa [updateIl, learnPeer] using hz'
+    · simpa [updateIl, learnPeer] using hq
+    · intro q hq'
+      simp only [List.mem_singleton] at hq'
+      subst hq'
+      simp [MsgFrom]
 
 theorem establish_inv (e : Ep) (il zc : Bool) (id : Nat) (pil pzc : Bool)
     (hI : EpInv e il zc id pil pzc) (hs : Seen e) : EpInv (establish e) il zc id pil pzc := by
-  obtain ⟨⟨hil, hzc, hid⟩, hder, hzero, hseen, hunseen, hst⟩ := hI
+  obtain ⟨⟨hil, hzc, hid⟩, hder, hzero, hseen, hunseen, hst, hq⟩ := hI
   obtain ⟨s1, s2, s3⟩ := hseen hs
   unfold establish
-  refine ⟨?_, ?_, ?_, ?_, ?_, ?_⟩
+  refine ⟨?_, ?_, ?_, ?_, ?_, ?_, ?_⟩
   · simp [updateIl, hil, hzc, hid]
   · simp [Derived, updateIl]
   · simpa [updateIl] using hzero
   · intro _; simp [updateIl, s1, s2, s3]
   · intro h; exfalso; apply h; right; right; rfl
   · right; right; right; rfl
+  · simpa [updateIl] using hq
 
 /-- clearing the stored chunks does not touch anything the invariant talks about -/
 theorem clearStored_inv (e : Ep) (il zc : Bool) (id : Nat) (pil pzc : Bool) (si : Bool) (sc : Option Nat)
     (hI : EpInv e il zc id pil pzc) : EpInv { e with storedInit := si, storedCookie := sc } il zc id pil pzc := by
-  obtain ⟨⟨hil, hzc, hid⟩, hder, hzero, hseen, hunseen, hst⟩ := hI
-  exact ⟨⟨hil, hzc, hid⟩, hder, hzero, hseen, hunseen, hst⟩
+  obtain ⟨⟨hil, hzc, hid⟩, hder, hzero, hseen, hunseen, hst, hq⟩ := hI
+  exact ⟨⟨hil, hzc, hid⟩, hder, hzero, hseen, hunseen, hst, hq⟩
 
 theorem handleCookieEcho_inv (e : Ep) (il zc : Bool) (id : Nat) (pil pzc : Bool) (cookie : Nat)
     (hI : EpInv e il zc id pil pzc) :
     EpInv (handleCookieEcho e cookie).1 il zc id pil pzc ∧
-    ∀ q ∈ (handleCookieEcho e cookie).2, PktFrom il zc pzc q := by
+    ∀ q ∈ (handleCookieEcho e cookie).2, MsgFrom il zc q := by
   unfold handleCookieEcho
   split
   · exact ⟨hI, by simp⟩
@@ -121,22 +121,18 @@ theorem handleCookieEcho_inv (e : Ep) (il zc : Bool) (id : Nat) (pil pzc : Bool)
     split
     · split
       · exact ⟨hI, by simp⟩
-      · refine ⟨hI, ?_⟩
-        intro q hq; simp only [List.mem_singleton] at hq; subst hq
-        exact mkPkt_from e _ il zc pzc (by simp [MsgFrom]) hI.zero
+      · exact ⟨hI, by simp [MsgFrom]⟩
     · split
       · split
         · exact ⟨hI, by simp⟩
         · have hE := establish_inv { e with storedInit := false, storedCookie := none } il zc id pil pzc
             (clearStored_inv e il zc id pil pzc false none hI) (Or.inl (by simpa using hc))
-          refine ⟨hE, ?_⟩
-          intro q hq; simp only [List.mem_singleton] at hq; subst hq
-          exact mkPkt_from _ _ il zc pzc (by simp [MsgFrom]) hE.zero
+          exact ⟨hE, by simp [MsgFrom]⟩
       · exact ⟨hI, by simp⟩
 
 theorem handleCookieAck_inv (e : Ep) (il zc : Bool) (id : Nat) (pil pzc : Bool)
     (hI : EpInv e il zc id pil pzc) :
-    EpInv (handleCookieAck e).1 il zc id pil pzc ∧ ∀ q ∈ (handleCookieAck e).2, PktFrom il zc pzc q := by
+    EpInv (handleCookieAck e).1 il zc id pil pzc ∧ ∀ q ∈ (handleCookieAck e).2, MsgFrom il zc q := by
   unfold handleCookieAck
   split
   · exact ⟨hI, by simp⟩
@@ -144,15 +140,15 @@ theorem handleCookieAck_inv (e : Ep) (il zc : Bool) (id : Nat) (pil pzc : Bool)
     have hst' : e.st = stCookieEchoed := by simpa using hs
     refine ⟨?_, by simp⟩
     have h0 : EpInv { e with storedCookie := none } il zc id pil pzc := by
-      obtain ⟨⟨hil, hzc, hid⟩, hder, hzero, hseen, hunseen, hst⟩ := hI
-      exact ⟨⟨hil, hzc, hid⟩, hder, hzero, hseen, hunseen, hst⟩
+      obtain ⟨⟨hil, hzc, hid⟩, hder, hzero, hseen, hunseen, hst, hq⟩ := hI
+      exact ⟨⟨hil, hzc, hid⟩, hder, hzero, hseen, hunseen, hst, hq⟩
     exact establish_inv _ il zc id pil pzc h0 (Or.inr (Or.inl hst'))
 
 /-- one inbound packet from the (consistently configured) peer preserves the endpoint invariant,
-and everything it emits is consistent with its own configuration -/
+and every chunk it queues is consistent with its own configuration -/
 theorem handle_inv (e : Ep) (il zc : Bool) (id : Nat) (pil pzc : Bool) (p : Pkt)
     (hI : EpInv e il zc id pil pzc) (hp : MsgFrom pil pzc p.msg) :
-    EpInv (handle e p).1 il zc id pil pzc ∧ ∀ q ∈ (handle e p).2, PktFrom il zc pzc q := by
+    EpInv (handle e p).1 il zc id pil pzc ∧ ∀ q ∈ (handle e p).2, MsgFrom il zc q := by
   unfold handle
   split
   · exact ⟨hI, by simp⟩
@@ -168,10 +164,10 @@ theorem handle_inv (e : Ep) (il zc : Bool) (id : Nat) (pil pzc : Bool) (p : Pkt)
 
 theorem start_inv (e : Ep) (il zc : Bool) (id : Nat) (pil pzc : Bool)
     (hI : EpInv e il zc id pil pzc) (hc : e.st = stClosed) :
-    EpInv (start e).1 il zc id pil pzc ∧ ∀ q ∈ (start e).2, PktFrom il zc pzc q := by
-  obtain ⟨⟨hil, hzc, hid⟩, hder, hzero, hseen, hunseen, hst⟩ := hI
+    EpInv (start e).1 il zc id pil pzc ∧ ∀ q ∈ (start e).2, MsgFrom il zc q := by
+  obtain ⟨⟨hil, hzc, hid⟩, hder, hzero, hseen, hunseen, hst, hq⟩ := hI
   unfold start
-  refine ⟨⟨⟨hil, hzc, hid⟩, ?_, hzero, ?_, ?_, Or.inr (Or.inl rfl)⟩, ?_⟩
+  refine ⟨⟨⟨hil, hzc, hid⟩, ?_, hzero, ?_, ?_, Or.inr (Or.inl rfl), hq⟩, ?_⟩
   · unfold Derived at hder ⊢; simpa using hder
   · intro h
     apply hseen
@@ -187,29 +183,50 @@ theorem start_inv (e : Ep) (il zc : Bool) (id : Nat) (pil pzc : Bool)
     · exact Or.inl (by simpa using h')
     · simp [hc, stClosed, stCookieEchoed] at h'
     · simp [hc, stClosed, stEstablished] at h'
-  · intro q hq
-    simp only [List.mem_singleton] at hq; subst hq
-    apply mkPkt_from
-    · simp [MsgFrom, hil, hzc]
-    · simpa using hzero
+  · simp [MsgFrom, hil, hzc]
 
 theorem t1Init_inv (e : Ep) (il zc : Bool) (id : Nat) (pil pzc : Bool) (hI : EpInv e il zc id pil pzc) :
-    EpInv (t1Init e).1 il zc id pil pzc ∧ ∀ q ∈ (t1Init e).2, PktFrom il zc pzc q := by
+    EpInv (t1Init e).1 il zc id pil pzc ∧ ∀ q ∈ (t1Init e).2, MsgFrom il zc q := by
   unfold t1Init
   split
-  · refine ⟨hI, ?_⟩
-    intro q hq; simp only [List.mem_singleton] at hq; subst hq
-    exact mkPkt_from e _ il zc pzc (by simp [MsgFrom, hI.cfg.1, hI.cfg.2.1]) hI.zero
+  · exact ⟨hI, by simp [MsgFrom, hI.cfg.1, hI.cfg.2.1]⟩
   · exact ⟨hI, by simp⟩
 
 theorem t1Cookie_inv (e : Ep) (il zc : Bool) (id : Nat) (pil pzc : Bool) (hI : EpInv e il zc id pil pzc) :
-    EpInv (t1Cookie e).1 il zc id pil pzc ∧ ∀ q ∈ (t1Cookie e).2, PktFrom il zc pzc q := by
+    EpInv (t1Cookie e).1 il zc id pil pzc ∧ ∀ q ∈ (t1Cookie e).2, MsgFrom il zc q := by
   unfold t1Cookie
   split
-  · refine ⟨hI, ?_⟩
-    intro q hq; simp only [List.mem_singleton] at hq; subst hq
-    exact mkPkt_from e _ il zc pzc (by simp [MsgFrom]) hI.zero
+  · exact ⟨hI, by simp [MsgFrom]⟩
   · exact ⟨hI, by simp⟩
+
+/-- the write loop marshals everything queued with the CURRENT flags: the endpoint invariant is kept and
+every emitted packet is consistent with the configuration (zero checksum only if the peer accepts it, never
+on INIT / COOKIE-ECHO) -/
+theorem flush_inv (e : Ep) (il zc : Bool) (id : Nat) (pil pzc : Bool) (more : List Msg)
+    (hI : EpInv e il zc id pil pzc) (hm : ∀ q ∈ more, MsgFrom il zc q) :
+    EpInv (flush e more).1 il zc id pil pzc ∧ ∀ q ∈ (flush e more).2, PktFrom il zc pzc q := by
+  obtain ⟨⟨hil, hzc, hid⟩, hder, hzero, hseen, hunseen, hst, hq⟩ := hI
+  unfold flush
+  refine ⟨⟨⟨hil, hzc, hid⟩, hder, hzero, hseen, hunseen, hst, by simp⟩, ?_⟩
+  intro q hq'
+  simp only [List.mem_map, List.mem_append] at hq'
+  obtain ⟨m, hm', rfl⟩ := hq'
+  apply mkPkt_from _ _ _ _ _ _ hzero
+  rcases hm' with h | h
+  · exact hq m h
+  · exact hm m h
+
+/-- queueing more consistent chunks keeps the invariant -/
+theorem enqueue_inv (e : Ep) (il zc : Bool) (id : Nat) (pil pzc : Bool) (more : List Msg)
+    (hI : EpInv e il zc id pil pzc) (hm : ∀ q ∈ more, MsgFrom il zc q) :
+    EpInv { e with queue := e.queue ++ more } il zc id pil pzc := by
+  obtain ⟨⟨hil, hzc, hid⟩, hder, hzero, hseen, hunseen, hst, hq⟩ := hI
+  refine ⟨⟨hil, hzc, hid⟩, hder, hzero, hseen, hunseen, hst, ?_⟩
+  intro m hm'
+  simp only [List.mem_append] at hm'
+  rcases hm' with h | h
+  · exact hq m h
+  · exact hm m h
 
 /-- the system invariant: both endpoint invariants, and both packet histories consistent with
 the configuration of the side that sent them -/
@@ -222,7 +239,7 @@ structure SysInv (s : Sys) (ilA zcA ilB zcB : Bool) : Prop where
 theorem init_inv (ilA zcA ilB zcB : Bool) : SysInv (Sys.init ilA zcA ilB zcB) ilA zcA ilB zcB := by
   have hE : ∀ (il zc : Bool) (id : Nat) (pil pzc : Bool), EpInv { id := id, il := il, zc := zc } il zc id pil pzc := by
     intro il zc id pil pzc
-    refine ⟨⟨rfl, rfl, rfl⟩, ?_, ?_, ?_, ?_, Or.inl rfl⟩
+    refine ⟨⟨rfl, rfl, rfl⟩, ?_, ?_, ?_, ?_, Or.inl rfl, by simp⟩
     · simp [Derived]
     · simp
     · intro h; rcases h with h | h | h <;> simp [stClosed, stCookieEchoed, stEstablished] at h
@@ -250,6 +267,17 @@ theorem step_inv (s : Sys) (ilA zcA ilB zcB : Bool) (op : Op) (h : SysInv s ilA 
     rcases hp with hp | hp
     · exact ihb p hp
     · exact ho p (by simpa using hp)
+  -- an endpoint step followed by the write loop
+  have thenFlushA : ∀ (r : Ep × List Msg), EpInv r.1 ilA zcA 0 ilB zcB → (∀ q ∈ r.2, MsgFrom ilA zcA q) →
+      SysInv (s.put false (flush r.1 r.2).1 (flush r.1 r.2).2) ilA zcA ilB zcB := by
+    intro r h1 h2
+    have := flush_inv r.1 ilA zcA 0 ilB zcB r.2 h1 h2
+    exact putA _ _ this.1 this.2
+  have thenFlushB : ∀ (r : Ep × List Msg), EpInv r.1 ilB zcB 1 ilA zcA → (∀ q ∈ r.2, MsgFrom ilB zcB q) →
+      SysInv (s.put true (flush r.1 r.2).1 (flush r.1 r.2).2) ilA zcA ilB zcB := by
+    intro r h1 h2
+    have := flush_inv r.1 ilB zcB 1 ilA zcA r.2 h1 h2
+    exact putB _ _ this.1 this.2
   cases op with
   | start x =>
     cases x
@@ -257,18 +285,17 @@ theorem step_inv (s : Sys) (ilA zcA ilB zcB : Bool) (op : Op) (h : SysInv s ilA 
       split
       · rename_i hc
         have := start_inv s.a ilA zcA 0 ilB zcB ia (by simpa using hc)
-        exact putA _ _ this.1 this.2
+        exact thenFlushA _ this.1 this.2
       · exact ⟨ia, ib, iha, ihb⟩
     · simp only [Sys.step, Sys.ep, ↓reduceIte]
       split
       · rename_i hc
         have := start_inv s.b ilB zcB 1 ilA zcA ib (by simpa using hc)
-        exact putB _ _ this.1 this.2
+        exact thenFlushB _ this.1 this.2
       · exact ⟨ia, ib, iha, ihb⟩
   | deliver x i =>
     cases x
-    · -- a packet sent by A reaches B
-      simp only [Sys.step, Sys.hist, Bool.false_eq_true, ↓reduceIte, Bool.not_false, Sys.ep]
+    · simp only [Sys.step, Sys.hist, Bool.false_eq_true, ↓reduceIte, Bool.not_false, Sys.ep]
       split
       · exact ⟨ia, ib, iha, ihb⟩
       · rename_i p hp
@@ -276,7 +303,7 @@ theorem step_inv (s : Sys) (ilA zcA ilB zcB : Bool) (op : Op) (h : SysInv s ilA 
           have := Array.mem_of_getElem? hp
           simpa using this
         have := handle_inv s.b ilB zcB 1 ilA zcA p ib (iha p hmem).1
-        exact putB _ _ this.1 this.2
+        exact thenFlushB _ this.1 this.2
     · simp only [Sys.step, Sys.hist, ↓reduceIte, Bool.not_true, Sys.ep, Bool.false_eq_true]
       split
       · exact ⟨ia, ib, iha, ihb⟩
@@ -285,18 +312,38 @@ theorem step_inv (s : Sys) (ilA zcA ilB zcB : Bool) (op : Op) (h : SysInv s ilA 
           have := Array.mem_of_getElem? hp
           simpa using this
         have := handle_inv s.a ilA zcA 0 ilB zcB p ia (ihb p hmem).1
-        exact putA _ _ this.1 this.2
+        exact thenFlushA _ this.1 this.2
   | t1Init x =>
     cases x
     · have := t1Init_inv s.a ilA zcA 0 ilB zcB ia
-      exact putA _ _ this.1 this.2
+      exact thenFlushA _ this.1 this.2
     · have := t1Init_inv s.b ilB zcB 1 ilA zcA ib
-      exact putB _ _ this.1 this.2
+      exact thenFlushB _ this.1 this.2
   | t1Cookie x =>
     cases x
     · have := t1Cookie_inv s.a ilA zcA 0 ilB zcB ia
-      exact putA _ _ this.1 this.2
+      exact thenFlushA _ this.1 this.2
     · have := t1Cookie_inv s.b ilB zcB 1 ilA zcA ib
+      exact thenFlushB _ this.1 this.2
+  | t1Queue x cookie =>
+    cases x
+    · simp only [Sys.step, Sys.ep, Bool.false_eq_true, ↓reduceIte]
+      cases cookie
+      · have := t1Init_inv s.a ilA zcA 0 ilB zcB ia
+        exact putA _ _ (enqueue_inv _ _ _ _ _ _ _ this.1 this.2) (by simp)
+      · have := t1Cookie_inv s.a ilA zcA 0 ilB zcB ia
+        exact putA _ _ (enqueue_inv _ _ _ _ _ _ _ this.1 this.2) (by simp)
+    · simp only [Sys.step, Sys.ep, ↓reduceIte]
+      cases cookie
+      · have := t1Init_inv s.b ilB zcB 1 ilA zcA ib
+        exact putB _ _ (enqueue_inv _ _ _ _ _ _ _ this.1 this.2) (by simp)
+      · have := t1Cookie_inv s.b ilB zcB 1 ilA zcA ib
+        exact putB _ _ (enqueue_inv _ _ _ _ _ _ _ this.1 this.2) (by simp)
+  | gather x =>
+    cases x
+    · have := flush_inv s.a ilA zcA 0 ilB zcB [] ia (by simp)
+      exact putA _ _ this.1 this.2
+    · have := flush_inv s.b ilB zcB 1 ilA zcA [] ib (by simp)
       exact putB _ _ this.1 this.2
 
 theorem run_inv (ilA zcA ilB zcB : Bool) (ops : List Op) :
@@ -312,7 +359,7 @@ theorem run_inv (ilA zcA ilB zcB : Bool) (ops : List Op) :
 theorem established_flags (e : Ep) (il zc : Bool) (id : Nat) (pil pzc : Bool)
     (hI : EpInv e il zc id pil pzc) (he : e.st = stEstablished) :
     e.uil = (il && pil) ∧ e.uifwd = (il && pil) ∧ e.ufwd = !(il && pil) ∧ (e.sendZero = true → pzc = true) := by
-  obtain ⟨⟨hil, hzc, hid⟩, ⟨d1, d2, d3⟩, hzero, hseen, hunseen, hst⟩ := hI
+  obtain ⟨⟨hil, hzc, hid⟩, ⟨d1, d2, d3⟩, hzero, hseen, hunseen, hst, -⟩ := hI
   obtain ⟨s1, s2, s3⟩ := hseen (Or.inr (Or.inr he))
   refine ⟨?_, ?_, ?_, hzero⟩
   · rw [d1, hil, s1]
